@@ -165,7 +165,12 @@ class SgzReader(object):
             self.padded_header_entry_length_bytes = self.header_entry_length_bytes
 
         self.segy_traceheader_template = self._decode_traceheader_template()
-        self.stored_header_keys = [k for k, v in self.segy_traceheader_template.items() if isinstance(v, FileOffset)]
+        # One key per stored array: fields which duplicate another field share its FileOffset
+        self.stored_header_keys = []
+        for k, v in self.segy_traceheader_template.items():
+            if isinstance(v, FileOffset) and v not in [self.segy_traceheader_template[s]
+                                                       for s in self.stored_header_keys]:
+                self.stored_header_keys.append(k)
         self.file_text_header = self.headerbytes[DISK_BLOCK_BYTES:
                                                  DISK_BLOCK_BYTES + SEGY_TEXT_HEADER_BYTES]
 
